@@ -299,16 +299,17 @@ func extractConfig() string {
 		untr("V1GenerateSettings.Translate not found")
 	}
 	pr := func(name string, fl [][2]string) {
-		b.WriteString("def " + name + " : List (String × String) := [")
+		b.WriteString("def " + name + " : List (String × String × String) := [")
 		for i, f := range fl {
 			if i > 0 {
 				b.WriteString(", ")
 			}
-			b.WriteString("(" + lstr(f[0]) + ", " + lstr(f[1]) + ")")
+			parts := strings.SplitN(f[0], ".", 2)
+			b.WriteString("(" + lstr(parts[0]) + ", " + lstr(parts[1]) + ", " + lstr(f[1]) + ")")
 		}
 		b.WriteString("]\n")
 	}
-	b.WriteString("/-- assignments inside Translate(): (target struct.field, source field of the v1 package) -/\n")
+	b.WriteString("/-- assignments inside Translate(): (target struct, target field, source field of the v1 package) -/\n")
 	pr("translateFlows", flows)
 	pr("translateTopFlows", topFlows)
 	// Combine(): which sources feed cs.Overrides / cs.Rename, in order
